@@ -454,6 +454,26 @@ def s19(led, rid, ctx):
                         eng.setdefault(h.name, c.span)
         n += 1
         sets[f.name] = sorted(eng)
+
+        def must_reach(g, depth=0):
+            """some call that dominates every return of g is an engine constructor or a helper that must reach one"""
+            for c in g.calls:
+                if not all(g.cfg.dominates(c.bb, r) for r in g.cfg.returns):
+                    continue
+                for h in lib.callees(c):
+                    if "/engine/" in h.file and h.name.startswith(("create_new", "new_")):
+                        return True
+                    if h.file.endswith("api/solver.rs") and depth < 3 and h is not g and must_reach(h, depth + 1):
+                        return True
+            # a lazily evaluated iterator: the parent is branch-free and its closure must reach the constructor
+            if not any(b["term"]["t"] == "switch" for b in g.blocks if not b.get("cleanup")):
+                return any(must_reach(h, depth + 1) for h in g.closures) if depth < 3 else False
+            return False
+        if len(eng) == 1 and f.name not in JUSTIFIED:
+            led.check(must_reach(f), rid, "%s:constructor-on-every-path" % f.name, f.span, "dominates every return",
+                      "Solver::%s can return without calling %s: some inputs are answered by a shortcut in the API "
+                      "layer (a constant literal, an existing variable) whose condition no rule here can argue"
+                      % (f.name, sorted(eng)[0]))
         if len(eng) != 1 and f.name in JUSTIFIED:
             led.ok(rid, "%s:one-engine-constructor" % f.name, f.span, "JUSTIFIED: " + JUSTIFIED[f.name])
             continue
@@ -556,10 +576,10 @@ def _u5b(led, rid, ctx):
     from . import C09 as _C09
     run_rule(led, "S15", "LINFORM: the arithmetic constraint builders mean what they say (shared with C09-R10)", _C09.r10, ctx)
     run_rule(led, "S16", "PAIR-LOOP: all_different posts x_i != x_j for every pair i < j", s16, ctx)
+    run_rule(led, "S17", "backtrack resets the notified-trail mark", s17, ctx)
+    run_rule(led, "S19", "API-FORWARD: each public variable constructor reaches exactly one engine constructor", s19, ctx)
+    run_rule(led, "S18", "MUST-PASS: no path of a Constraint::post / implied_by returns Ok(()) without posting", s18, ctx)
     from . import kernel as _kernel
     _kernel.run_bundle(led, ctx, "S")
     from . import kernel as _kernel2
     _kernel2.run_lifecycle(led, ctx, "S")
-    run_rule(led, "S17", "backtrack resets the notified-trail mark", s17, ctx)
-    run_rule(led, "S19", "API-FORWARD: each public variable constructor reaches exactly one engine constructor", s19, ctx)
-    run_rule(led, "S18", "MUST-PASS: no path of a Constraint::post / implied_by returns Ok(()) without posting", s18, ctx)
